@@ -112,6 +112,42 @@ def step (st : Option Inc) (f : Frame) : Option Inc × Out :=
       | none => (none, .inconsistent)         -- the incomplete transfer was `take`n
     | none => (none, deliver f.id f.tag f.fmt f.settled f.payload)
 
+/-- source facts about the `resume` flag: `on_incoming_transfer` looks at it after `aborted` and `more` (so only
+    on a last frame), and `on_resuming_transfer` makes the frame a delivery of its own — leaving the delivery in
+    progress untouched — only in the arm where both tags are known, under `remote != local`, and before the
+    `else` / `_` arms, which complete the delivery in progress like any last frame -/
+def resumeShape : Bool :=
+  decide (idx_if_transfer___more < idx_else_if_transfer___resume) &&
+  decide (idx_else_if_transfer___resume < idx_on_resuming_transfer) &&
+  decide (idx_on_resuming_transfer < idx_on_complete_transfer) &&
+  (open Amqp.Gen.ReasmK.on_resuming_transfer_order in
+   decide (idx___Some___remote_____Some___Some___local__________ < idx_if_remote_____local) &&
+   decide (idx_if_remote_____local < idx_count_number_of_sections_and_offset) &&
+   decide (idx_count_number_of_sections_and_offset < idx_self___link___on_complete_transfer) &&
+   decide (idx_self___link___on_complete_transfer < idx___else__) &&
+   decide (idx___else__ < idx_self___on_complete_transfer) &&
+   decide (idx_self___on_complete_transfer < idx______) &&
+   decide (idx______ < 1000) &&
+   decide (idx_remote_____local = 1000) && decide (idx_incomplete_transfer___take = 1000) &&
+   decide (idx_incomplete_transfer___None = 1000))
+
+/-- `on_incoming_transfer` for a frame that carries the `resume` flag (`on_resuming_transfer` for a last frame) -/
+def stepR (st : Option Inc) (f : Frame) (resume : Bool) : Option Inc × Out :=
+  if resumeShape && resume && !f.aborted && !f.more then
+    match f.tag, st.map (·.tag) with
+    | some remote, some (some loc) =>
+      if remote ≠ loc then (st, deliver f.id f.tag f.fmt f.settled f.payload)   -- a delivery of its own
+      else step st f
+    | _, _ => step st f
+  else step st f
+
+def runR (st : Option Inc) : List (Frame × Bool) → Option Inc × List Out
+  | [] => (st, [])
+  | (f, r) :: fs =>
+    let (s1, o) := stepR st f r
+    let (s2, os) := runR s1 fs
+    (s2, o :: os)
+
 def run (st : Option Inc) : List Frame → Option Inc × List Out
   | [] => (st, [])
   | f :: fs =>
